@@ -371,6 +371,9 @@ func GenDoc(r *rand.Rand, p *AP, kind int) (toks []Tok, b []byte) {
 			}
 		}
 		return nil, Serialise(toks, r)
+	case 7: // conforming document from the policy's own vocabulary, canonical serialisation
+		toks = GenConformingDoc(r, p)
+		return toks, Serialise(toks, nil)
 	case 6: // attribute-heavy: tags from the policy's own vocabulary with attributes its rules talk about
 		g.names = pool
 		if len(g.names) == 0 {
